@@ -201,12 +201,15 @@ def _shard_entry(args):
         _DUMP_FILE = open(f"/dev/shm/dump-{prop}-{shard}.txt", "w")
         faulthandler.dump_traceback_later(int(os.environ["VERIF_DUMP_AFTER"]), repeat=True, file=_DUMP_FILE)
     try:
+        cover = _start_cover() if os.environ.get("VERIF_COVER") else None
         mod = importlib.import_module(modname)
         ctx = Ctx(prop, tier, seed, shard, nshards, scale, opts)
         try:
             mod.run_shard(ctx)
         except Violation:
             pass
+        if cover is not None:
+            _stop_cover(cover, f"{os.environ['VERIF_COVER']}/cover-{prop}-{shard}.json")
         res = ctx.result()
         res["error"] = None
         return res
@@ -218,6 +221,36 @@ def _shard_entry(args):
         return {"shard": shard, "error": traceback.format_exc(), "evaluations": 0,
                 "nontrivial": [], "classes": {}, "samples": [], "violations": [],
                 "excluded": {}, "extra": {}, "wall_s": 0.0, "seed": seed}
+
+
+def _start_cover():
+    """Measurement aid (VERIF_COVER=<dir>, see tools/cover_report.py): which lines of the uberjob package the generated
+    cases execute, via sys.monitoring (independent of the scheduler's sys.settrace).  Forked children (C08/C11 kill
+    enumeration) are not measured."""
+    import sys
+    mon = sys.monitoring
+    tool = mon.COVERAGE_ID
+    root = os.path.join(os.environ.get("VERIF_REPO", "/repo"), "src", "uberjob") + os.sep
+    seen = set()
+
+    def on_line(code, line):
+        fn = code.co_filename
+        if fn.startswith(root):
+            seen.add((fn[len(root):], line))
+        return mon.DISABLE
+
+    mon.use_tool_id(tool, "verif-cover")
+    mon.register_callback(tool, mon.events.LINE, on_line)
+    mon.set_events(tool, mon.events.LINE)
+    return seen
+
+
+def _stop_cover(seen, path):
+    import sys
+    sys.monitoring.set_events(sys.monitoring.COVERAGE_ID, 0)
+    sys.monitoring.free_tool_id(sys.monitoring.COVERAGE_ID)
+    with open(path, "w") as f:
+        json.dump(sorted(seen), f)
 
 
 def _kill_pool(ex):
